@@ -183,6 +183,10 @@ def run(ctx):
                    'the result built where next() may have returned Some derives from the consumed element', ips.loc(bi, st))
     ctx.floor('R02.8', len(nx_), 1, 'next() on the queue iterator in iter_priority_sizes')
 
+    # ---- R02.9
+    ctx.rule('R02.9', 'a task whose retraction was confirmed is dispatched again: on_retract_response moves it out of Retracting on every path (Assigned on the redirect target, Waiting otherwise)')
+    shared_rules.retract_response_leaves_retracting(ctx, 'R02.9')
+
 
 def _only_missing_job(cj, m_, z):
     """paths from cancel_tasks to return that avoid set_cancel_state exist only via the `job not found` None arm."""
